@@ -464,6 +464,15 @@ func (in *Interp) branch(c *Term) bool {
 	}
 	P := in.P
 	P.branchesSym++
+	if !in.opts.Deadline.IsZero() && P.pos >= len(P.prefix) && time.Now().After(in.opts.Deadline) {
+		// the harness' time budget ran out in the middle of a path: abandon it (reported as truncated)
+		in.ex.mu.Lock()
+		in.ex.res.truncated = true
+		in.ex.stopped = true
+		in.ex.mu.Unlock()
+		in.ex.cond.Broadcast()
+		panic(boundExceeded{"time budget of the harness"})
+	}
 	if P.pos < len(P.prefix) {
 		d := P.prefix[P.pos]
 		P.pos++
@@ -830,7 +839,11 @@ func (in *Interp) runPath(fn *ssa.Function, prefix []Decision) {
 			case boundExceeded:
 				status = "bound"
 				detail = x.what
-				in.noteInconclusive("BOUND-EXCEEDED: " + x.what + " @ " + in.stackString())
+				if x.what == "time budget of the harness" {
+					in.noteInconclusive("BOUND-EXCEEDED: " + x.what + " (paths in progress abandoned)")
+				} else {
+					in.noteInconclusive("BOUND-EXCEEDED: " + x.what + " @ " + in.stackString())
+				}
 			default:
 				status = "internal"
 				detail = fmt.Sprint(r)
